@@ -194,6 +194,7 @@ func extractOf(c *ssa.Call, k int) ssa.Value {
 
 func c09R2(r *Report) {
 	p := r.P
+	c09DataReleases(r, "R2")
 	reqPkg := "peer/requests"
 	isReport := func(in ssa.Instruction) bool {
 		if isCallNamed(in, "peer", "drop") {
@@ -1247,4 +1248,49 @@ func c09R5b(r *Report) {
 		})
 	}
 	r.Sentinel("R5.drops", n, 1)
+}
+
+// c09DataReleases: a TorData event stands for a request that has been taken out of a peer's (or a web-seed fetch's)
+// bookkeeping, and the torrent counts off ceil(Length/16384) blocks for it. Its Length is therefore positive wherever
+// the event is built: with Length 0 nothing is counted off and the block stays in flight for ever — once that has
+// happened maxInFlight times the block is never requested from anybody again (F30: a peer answering requests with
+// Piece messages that carry no data).
+func c09DataReleases(r *Report, rule string) {
+	p := r.P
+	env := &IntEnv{}
+	n := 0
+	for _, f := range p.SrcFuncs() {
+		if pk := relPkg(f); pk != "peer" && pk != "tor" {
+			continue
+		}
+		allInstrs(f, func(in ssa.Instruction) {
+			mi, ok := in.(*ssa.MakeInterface)
+			if !ok {
+				return
+			}
+			sl := litOf(mi)
+			if sl == nil || sl.Type != "peer.TorData" {
+				return
+			}
+			n++
+			r.Fn(f)
+			lv := sl.Fields["Length"]
+			good := false
+			why := "the event is built without a Length"
+			if lv != nil {
+				iv := env.At(lv, mi.Block())
+				// a length converted from an int: the bound may be stated on the value before the conversion
+				if cv, isCv := lv.(*ssa.Convert); isCv && iv.Lo < 1 {
+					if iv2 := env.At(cv.X, mi.Block()); iv2.Lo >= 1 {
+						iv = iv2
+					}
+				}
+				good = iv.Lo >= 1
+				why = fmt.Sprintf("Length %s is only known to be in %s here", exprStr(lv), iv)
+			}
+			r.Check(good, rule, fmt.Sprintf("%s/TorData-length-positive", fname(f)), mi.Pos(), "the data event counts off at least one block",
+				"a TorData event can be reported with Length 0 ("+why+"): the request it stands for is gone from the sender's bookkeeping, but the torrent counts off ceil(0/16384) = 0 blocks — the block stays counted in flight for ever and, after maxInFlight such replies, is never requested again (a remote peer only has to answer requests with empty Piece messages)")
+		})
+	}
+	r.Sentinel(rule+".data-events", n, 2)
 }
